@@ -87,11 +87,7 @@ def run(repo, tier) -> Result:
             res.fail("R-BOUND", finding("C07", "R-BOUND", fci, lp, "the resume scan walks the list oldest-first: every append walks the whole history before it reaches the new candle"))
         if not bad and not asc:
             res.ok("R-BOUND", {"site": fci.where, "why": "newest-first scan; every case resumes at m or m-1 (constant re-work)"}, nontrivial="resume:bounded")
-    if len(res.errors) > n_err:
-        # unknown shape: for C07 an unrecognised scan over the list is itself the finding
-        res.errors = res.errors[:n_err]
-        for lp in history_loops(fci) or [fci.node]:
-            res.fail("R-BOUND", finding("C07", "R-BOUND", fci, lp if not isinstance(lp, ast.FunctionDef) else None, "the resume scan is no longer 'newest first, stop at the first candle that has the reading': every append may walk the retained history", construct=norm_construct(lp.iter) if isinstance(lp, ast.For) else f"def {fci.name}"))
+    # (a resume scan the analysis cannot model stays an analysis error: it is not evidence of unbounded work)
     # R-HISTORY over the call graph
     cg = CallGraph(repo)
     roots = [cg.key(repo.method("hexital.core.indicator", "Indicator", "calculate")), cg.key(repo.method("hexital.core.indicator", "Managed", "set_reading"))]
